@@ -1,5 +1,6 @@
 import CopVerif.Real.ClaytonDeriv
 import CopVerif.Real.Frank
+import CopVerif.Real.Rosenblatt
 /-!
 # C09 — Bivariate copula samples have uniform margins and the model's dependence
 
@@ -9,8 +10,9 @@ import CopVerif.Real.Frank
 
 The joint-law clause is the Rosenblatt identity: since `{percent_point(c, t) ≤ u} = {c ≤ h(u, t)}`,
 for independent uniforms `P(U ≤ u, V ≤ v) = ∫₀ᵛ h(u, t) dt`, and that integral is `C(u, v)`
-(`frank_rosenblatt`; uniform margins are its `u = 1` and `v = 1` cases).  Clayton/Gumbel: see
-`Props/C09b.lean` when present (h is singular at t = 0).  That numpy's MT19937 stream is
+(`frank_rosenblatt`, `clayton_rosenblatt`, `gumbel_rosenblatt`; uniform margins are the `u = 1` and
+`v = 1` cases).  For Clayton, whose inverse is closed-form, the event identity itself and its
+Lebesgue measure are proved (`clayton_event_identity`, `clayton_event_measure`).  That numpy's MT19937 stream is
 uniform/independent is in the trusted base; the value of Kendall's tau of `C_θ` is not proved.
 -/
 namespace CopVerif.Props.C09
@@ -81,6 +83,37 @@ theorem frank_uniform_margins {θ : ℝ} (hθ : θ ≠ 0) :
     rw [frank_rosenblatt hθ hu hu1, Frank.bridge_cdfRow, Frank.C_one_right hθ]
   · intro v
     rw [frank_rosenblatt hθ zero_le_one le_rfl, Frank.bridge_cdfRow, Frank.C_one_left hθ]
+
+/-- Clayton joint law: `h(u,·)` is integrable on `[0,v]` and `∫₀ᵛ h(u,t) dt = C(u,v)`. -/
+theorem clayton_rosenblatt {θ u v : ℝ} (hθ : 0 < θ) (hu : 0 < u) (hu1 : u ≤ 1) (hv : 0 ≤ v) :
+    IntervalIntegrable (fun t => Gen.Clayton.hRow θ u t) MeasureTheory.volume 0 v ∧
+      ∫ t in (0:ℝ)..v, Gen.Clayton.hRow θ u t = Gen.Clayton.cdfRow θ u v := by
+  simp only [Clayton.bridge_hRow, Clayton.bridge_cdfRow]; exact Clayton.integral_h hθ hu hu1 hv
+
+/-- The event identity behind the Rosenblatt transform: for the conditioning value `t`,
+`{c ∈ (0,1] : percent_point(c, t) ≤ u}` is the interval `(0, h(u,t)]`, of Lebesgue measure `h(u,t)`. -/
+theorem clayton_event_identity {θ y t u : ℝ} (hθ : 0 < θ) (hy : 0 < y) (hy1 : y ≤ 1) (ht : 0 < t)
+    (hu : 0 < u) (hu1 : u ≤ 1) :
+    Gen.Clayton.ppfRow θ y t ≤ u ↔ y ≤ Gen.Clayton.hRow θ u t := by
+  simp only [Clayton.bridge_ppfRow, Clayton.bridge_hRow]; exact Clayton.ppf_le_iff hθ hy hy1 ht hu hu1
+
+theorem clayton_event_measure {θ t u : ℝ} (hθ : 0 < θ) (ht : 0 < t) (hu : 0 < u) (hu1 : u ≤ 1) :
+    MeasureTheory.volume {y | y ∈ Set.Ioc (0:ℝ) 1 ∧ Gen.Clayton.ppfRow θ y t ≤ u}
+      = ENNReal.ofReal (Gen.Clayton.hRow θ u t) := by
+  simp only [Clayton.bridge_ppfRow, Clayton.bridge_hRow]; exact Clayton.volume_ppf_le hθ ht hu hu1
+
+/-- Gumbel joint law for every `θ ≥ 1`. -/
+theorem gumbel_rosenblatt {θ u v : ℝ} (hθ : 1 ≤ θ) (hu : 0 < u) (hu1 : u < 1) (hv : 0 < v)
+    (hv1 : v ≤ 1) :
+    IntervalIntegrable (fun t => Gumbel.h θ u t) MeasureTheory.volume 0 v ∧
+      ∫ t in (0:ℝ)..v, Gumbel.h θ u t = Gen.Gumbel.cdfRow θ u v := by
+  simp only [Gumbel.bridge_cdfRow]; exact Gumbel.integral_h hθ hu hu1 hv hv1
+
+/-- Gumbel has no closed-form inverse: for ANY root `u₀` of `h(·,t) = y` (what the Brent search
+returns) the event identity `u₀ ≤ u ↔ y ≤ h(u,t)` holds. -/
+theorem gumbel_event_identity {θ t u₀ u y : ℝ} (hθ : 1 ≤ θ) (ht : 0 < t) (ht1 : t < 1) (hu₀ : 0 < u₀)
+    (hu₀1 : u₀ < 1) (hu : 0 < u) (hu1 : u < 1) (hroot : Gumbel.h θ u₀ t = y) :
+    u₀ ≤ u ↔ y ≤ Gumbel.h θ u t := Gumbel.root_le_iff hθ ht ht1 hu₀ hu₀1 hu hu1 hroot
 
 example : ¬ ((1:ℝ) < 1/2 ∨ (1/2:ℝ) < -1) := by norm_num
 
